@@ -51,7 +51,11 @@ def on_error_resume_next_(
                 return
 
             # Allow source to be a factory method taking an error
-            source = source(state) if callable(source) else source
+            try:
+                source = source(state) if callable(source) else source
+            except Exception as ex:  # pylint: disable=broad-except
+                observer.on_error(ex)
+                return
             current = reactivex.from_future(source) if is_future(source) else source
 
             d = SingleAssignmentDisposable()
